@@ -38,10 +38,21 @@ func Pinned(f *ssa.Function) bool {
 	for f.Parent() != nil {
 		f = f.Parent()
 	}
+	if IsInstance(f) {
+		f = f.Origin() // an instance of a generic function is pinned iff the generic function is
+	}
 	if c, ok := aliasOf[f]; ok {
 		return pinnedFuncs[c]
 	}
 	return pinnedFuncs[f.String()]
+}
+
+// IsInstance: f is an instantiation of a generic module function with a body of its own over concrete types (the
+// program is built with ssa.InstantiateGenerics). Such a function is "synthetic" only in name: its body is the source
+// body of the generic function, and a static call of roundTrip[A, B] has it as its StaticCallee. It is treated like
+// any other helper (interpreted inline when it is outside the pinned decomposition and only ever called statically).
+func IsInstance(f *ssa.Function) bool {
+	return f != nil && f.Origin() != nil && strings.HasPrefix(f.Synthetic, "instance of ") && f.Syntax() != nil && len(f.Blocks) > 0
 }
 
 var curProg *Prog
@@ -85,7 +96,7 @@ func computeInlinable(p *Prog) {
 	inlinableSet = map[*ssa.Function]bool{}
 	cand := map[*ssa.Function]bool{}
 	for _, f := range p.RepoFns {
-		if len(f.Blocks) == 0 || f.Parent() != nil || f.Synthetic != "" || Pinned(f) {
+		if len(f.Blocks) == 0 || f.Parent() != nil || f.Synthetic != "" && !IsInstance(f) || Pinned(f) {
 			continue
 		}
 		if f.Name() == "init" || f.Name() == "main" {
@@ -280,6 +291,65 @@ func computeInlinable(p *Prog) {
 			}
 		}
 	}
+	// the same for a plain function value (no MakeClosure) — a function literal without captured variables, or a named
+	// function outside the pinned decomposition: its only use in the module is as one argument of one call of a helper
+	// interpreted inline, which does nothing with that parameter but call it
+	callbackFnSet = map[*ssa.Function]*ssa.Call{}
+	for _, g := range p.RepoFns {
+		if len(g.FreeVars) != 0 || len(g.Blocks) == 0 || inlinableSet[g] {
+			continue
+		}
+		if g.Parent() == nil && (g.Synthetic != "" || Pinned(g) || g.Name() == "init" || g.Name() == "main" || g.Signature.Recv() != nil) {
+			continue
+		}
+		var use *ssa.Call
+		n := 0
+		for _, f := range p.RepoFns {
+			for _, b := range f.Blocks {
+				for _, in := range b.Instrs {
+					for _, op := range in.Operands(nil) {
+						if op == nil || *op != ssa.Value(g) {
+							continue
+						}
+						n++
+						if c, ok := in.(*ssa.Call); ok && op != &c.Call.Value {
+							use = c
+						}
+					}
+				}
+			}
+		}
+		if n != 1 || use == nil {
+			continue
+		}
+		h := use.Common().StaticCallee()
+		if h == nil || !inlinableSet[h] || h.Parent() != nil {
+			continue
+		}
+		okUse := false
+		for i, a := range use.Call.Args {
+			if a != ssa.Value(g) || i >= len(h.Params) {
+				continue
+			}
+			prm := h.Params[i]
+			okUse = true
+			if refs := prm.Referrers(); refs != nil {
+				for _, r := range *refs {
+					if _, dbg := r.(*ssa.DebugRef); dbg {
+						continue
+					}
+					c, isCall := r.(*ssa.Call)
+					if !isCall || c.Call.Value != ssa.Value(prm) {
+						okUse = false
+					}
+				}
+			}
+		}
+		if okUse {
+			callbackFnSet[g] = use
+			inlinableSet[g] = true
+		}
+	}
 	// function literals without captured variables are plain function values: same rule, all uses are direct calls
 	for _, g := range p.RepoFns {
 		if g.Parent() == nil || len(g.FreeVars) != 0 || len(g.Blocks) == 0 {
@@ -398,6 +468,10 @@ var cbBind = map[*ssa.Parameter]*ssa.Function{}
 // callbackSet: closures created only to be handed, as a callback that is merely called, to a helper interpreted inline.
 var callbackSet map[*ssa.Function]*ssa.MakeClosure
 
+// callbackFnSet: the same for function literals without captured variables (plain function values): the one call that
+// hands the literal to the helper.
+var callbackFnSet map[*ssa.Function]*ssa.Call
+
 func cbKey(cb map[*ssa.Parameter]*ssa.Function) string {
 	if len(cb) == 0 {
 		return ""
@@ -413,11 +487,17 @@ func cbKey(cb map[*ssa.Parameter]*ssa.Function) string {
 // cbOf: the callback closures a call hands to the helper it calls.
 func cbOf(c *ssa.Call) map[*ssa.Parameter]*ssa.Function {
 	h := c.Common().StaticCallee()
-	if h == nil || len(callbackSet) == 0 {
+	if h == nil || len(callbackSet)+len(callbackFnSet) == 0 {
 		return nil
 	}
 	var out map[*ssa.Parameter]*ssa.Function
 	for i, a := range c.Call.Args {
+		if g, ok := a.(*ssa.Function); ok && i < len(h.Params) && callbackFnSet[g] == c {
+			if out == nil {
+				out = map[*ssa.Parameter]*ssa.Function{}
+			}
+			out[h.Params[i]] = g
+		}
 		if mc, ok := a.(*ssa.MakeClosure); ok && i < len(h.Params) {
 			if g, _ := mc.Fn.(*ssa.Function); g != nil && callbackSet[g] == mc {
 				if out == nil {
